@@ -77,7 +77,7 @@ package policy
 //@   loop 0 decreases len(errs) - rangeindex
 //@   ensures [C12.register.errors.count] len(p.failureConditions) == n0 + len(errs) && p.errorsChecked
 //@   ensures [C12.register.errors.kept] forall j int :: 0 <= j && j < n0 ==> p.failureConditions[j] == old(p.failureConditions[j])
-//@   ensures [C12.register.errors.bound] forall j int :: 0 <= j && j < len(errs) ==> clofn(p.failureConditions[n0+j]) == fnid("(*BaseFailurePolicy).HandleErrors$1") && cellof(clobind(p.failureConditions[n0+j], 0), error) == errs[j]
+//@   ensures [C12.register.errors.bound+C10.handles.registered_conditions] forall j int :: 0 <= j && j < len(errs) ==> clofn(p.failureConditions[n0+j]) == fnid("(*BaseFailurePolicy).HandleErrors$1") && cellof(clobind(p.failureConditions[n0+j], 0), error) == errs[j]
 //@   modifies p.failureConditions, p.errorsChecked
 
 //@ func (*BaseFailurePolicy).HandleErrorTypes
@@ -90,7 +90,7 @@ package policy
 //@   loop 0 decreases len(errs) - rangeindex
 //@   ensures [C12.register.errortypes.count] len(p.failureConditions) == n0 + len(errs) && p.errorsChecked
 //@   ensures [C12.register.errortypes.kept] forall j int :: 0 <= j && j < n0 ==> p.failureConditions[j] == old(p.failureConditions[j])
-//@   ensures [C12.register.errortypes.bound] forall j int :: 0 <= j && j < len(errs) ==> clofn(p.failureConditions[n0+j]) == fnid("(*BaseFailurePolicy).HandleErrorTypes$1") && cellof(clobind(p.failureConditions[n0+j], 0), any) == errs[j]
+//@   ensures [C12.register.errortypes.bound+C10.handles.registered_conditions] forall j int :: 0 <= j && j < len(errs) ==> clofn(p.failureConditions[n0+j]) == fnid("(*BaseFailurePolicy).HandleErrorTypes$1") && cellof(clobind(p.failureConditions[n0+j], 0), any) == errs[j]
 //@   modifies p.failureConditions, p.errorsChecked
 
 // HandleResult does not touch errorsChecked: the default "any error is a failure" stays in force.
@@ -98,7 +98,7 @@ package policy
 //@   builder
 //@   requires p != nil
 //@   oldlet n0 := len(p.failureConditions)
-//@   ensures [C12.register.result] len(p.failureConditions) == n0 + 1 && p.errorsChecked == old(p.errorsChecked) && clofn(p.failureConditions[n0]) == fnid("(*BaseFailurePolicy).HandleResult$1") && cellof(clobind(p.failureConditions[n0], 0), R) == result
+//@   ensures [C12.register.result+C10.handles.registered_conditions] len(p.failureConditions) == n0 + 1 && p.errorsChecked == old(p.errorsChecked) && clofn(p.failureConditions[n0]) == fnid("(*BaseFailurePolicy).HandleResult$1") && cellof(clobind(p.failureConditions[n0], 0), R) == result
 //@   ensures [C12.register.result.kept] forall j int :: 0 <= j && j < n0 ==> p.failureConditions[j] == old(p.failureConditions[j])
 //@   modifies p.failureConditions
 
